@@ -86,7 +86,7 @@ PROFILE = gf.make_profile(
            "do": 12, "dowhile": 1, "if": 4, "if1": 1, "select": 1,
            "where": 3, "call": 5, "exitcycle": 1, "print": 0, "return": 1,
            "matmul": 1},
-    nstmts=(3, 6), budget=12, max_depth=3, helpers=(1, 2),
+    nstmts=(2, 4), budget=7, max_depth=2, helpers=(0, 1),
     twin_loops=45, perfect_nest=40, rich_intrinsics=True, dep_index=60,
     ninputs=0)
 
@@ -108,7 +108,8 @@ PSY_FILES = {
               "15.14.4_builtin_and_normal_kernel_invoke.f90",
               "14.10_halo_continuous_cell_w_to_r.f90",
               "15.17.1_one_reduction_one_standard_builtin.f90",
-              "1.2_multi_invoke.f90"],
+              "1.2_multi_invoke.f90", "1.1.6_face_qr.f90",
+              "4.6_multikernel_invokes.f90"],
     C.GOCEAN: ["single_invoke.f90", "single_invoke_three_kernels.f90",
                "test11_different_iterates_over_one_invoke.f90",
                "single_invoke_kern_with_use.f90",
@@ -200,10 +201,10 @@ def gen_cases(draw):
 
 @st.composite
 def tuned_cases(draw):
-    names, source = draw(pool.tuned_programs())
-    plan = draw(plans(C.GENERIC, 6, max_setup=3))
-    return {"kind": "src", "api": C.GENERIC, "fragments": names,
-            "source": source, **plan}
+    theme, names, family, source = draw(pool.tuned_programs())
+    plan = draw(plans(C.GENERIC, 6, max_setup=3, family=family))
+    return {"kind": "src", "api": C.GENERIC, "theme": theme,
+            "fragments": names, "source": source, **plan}
 
 
 @st.composite
@@ -512,7 +513,35 @@ def _lfric_cold_tree(case):
             and case.get("materialise") is False)
 
 
+RED_FAMILY = ("Sum2LoopTrans", "Product2LoopTrans", "Maxval2LoopTrans",
+              "Minval2LoopTrans")
+
+
+def _reduction_increment(case):
+    """ArrayReductionBaseTrans.apply creates 'tmp_var' for an increment
+    statement (x = x + SUM(..)) before the nested ArrayAssignment2LoopsTrans
+    gets the chance to refuse; the revert (documented in a source comment)
+    leaves the symbol behind.  Input feature: one of the four reduction
+    transformations applied to an intrinsic whose enclosing assignment
+    reads its own left-hand-side variable, refused after validate()."""
+    att = _last(case)
+    if att["t"] not in RED_FAMILY or case.get("kind") != "src":
+        return False
+    if case.get("facts", {}).get("phase", "late") != "late":
+        return False
+    from psyclone.psyir.nodes import Assignment, Reference
+    env = C.env_from(case)
+    env.build()
+    node = env.nodes[att["target"]["i"][0]]
+    asg = node.ancestor(Assignment)
+    if asg is None or not isinstance(asg.lhs, Reference):
+        return False
+    return any(ref.symbol is asg.lhs.symbol
+               for ref in asg.rhs.walk(Reference))
+
+
 CLASSIFIERS = {
     "omp_loop_reprod_symbols_before_validate": _omp_loop_reprod,
+    "array_reduction_increment_tmp_var_left_behind": _reduction_increment,
     "lfric_cold_tree_queries_create_symbols": _lfric_cold_tree,
 }
